@@ -360,11 +360,13 @@ where
 	Ok(())
 }
 
-///
+/// Cancels the log entry the output belongs to and, in the same batch, stores the repaired
+/// output record (or deletes it)
 fn cancel_tx_log_entry<'a, L, C, K>(
 	wallet_inst: Arc<Mutex<Box<dyn WalletInst<'a, L, C, K>>>>,
 	keychain_mask: Option<&SecretKey>,
 	output: &OutputData,
+	delete_output: bool,
 ) -> Result<(), Error>
 where
 	L: WalletLCProvider<'a, C, K>,
@@ -399,6 +401,11 @@ where
 	let mut batch = w.batch(keychain_mask)?;
 	if let Some(t) = updated_tx_entry {
 		batch.save_tx_log_entry(t, &parent_key_id)?;
+	}
+	if delete_output {
+		batch.delete(&output.key_id, &output.mmr_index)?;
+	} else {
+		batch.save(output.clone())?;
 	}
 	batch.commit()?;
 	Ok(())
@@ -541,11 +548,7 @@ where
 		}
 		o.status = OutputStatus::Unspent;
 		// any transactions associated with this should be cancelled
-		cancel_tx_log_entry(wallet_inst.clone(), keychain_mask, &o)?;
-		wallet_lock!(wallet_inst, w);
-		let mut batch = w.batch(keychain_mask)?;
-		batch.save(o)?;
-		batch.commit()?;
+		cancel_tx_log_entry(wallet_inst.clone(), keychain_mask, &o, false)?;
 	}
 
 	// Restore missing outputs, adding transaction for it back to the log
@@ -580,11 +583,7 @@ where
 				let _ = s.send(StatusMessage::Scanning(msg, 99));
 			}
 			o.status = OutputStatus::Unspent;
-			cancel_tx_log_entry(wallet_inst.clone(), keychain_mask, &o)?;
-			wallet_lock!(wallet_inst, w);
-			let mut batch = w.batch(keychain_mask)?;
-			batch.save(o)?;
-			batch.commit()?;
+			cancel_tx_log_entry(wallet_inst.clone(), keychain_mask, &o, false)?;
 		}
 
 		let unconfirmed_outs: Vec<&OutputCommitMapping> = wallet_outputs
@@ -602,11 +601,7 @@ where
 			if let Some(ref s) = status_send_channel {
 				let _ = s.send(StatusMessage::Scanning(msg, 99));
 			}
-			cancel_tx_log_entry(wallet_inst.clone(), keychain_mask, &o)?;
-			wallet_lock!(wallet_inst, w);
-			let mut batch = w.batch(keychain_mask)?;
-			batch.delete(&o.key_id, &o.mmr_index)?;
-			batch.commit()?;
+			cancel_tx_log_entry(wallet_inst.clone(), keychain_mask, &o, true)?;
 		}
 	}
 
